@@ -375,6 +375,11 @@ impl Loop3D {
             let a = self.vertices[i % n];
             let b = self.vertices[(i + 1) % n];
 
+            // a diagonal cannot pass through a vertex of the loop (other than its own ends)
+            if !a.compare(s.start()) && !a.compare(s.end()) && s.contains_point(a)? {
+                return Ok(false);
+            }
+
             let poly_s = Segment3D::new(a, b);
             let intersects = s.intersect(&poly_s, &mut inter);
             // If they are contained and are the same length, then they are the same segment
